@@ -122,14 +122,22 @@ def run(ctx, rep):
             rep.require(okm, "linkage", "chain:match" + kk, w, "hash | 1 == chain[i] | 1", "the successful path does not compare the hash with the chain entry ignoring bit 0")
             # answers given before the walk: only for the reasons for which a well-formed table cannot contain the name
             zero = lambda x: ("Eq",) + tuple(sorted((x, C(0)), key=repr))
-            early_atoms = {zero(nb), ("Lt", nb[1], nb[2]), zero(F_(hdr, "nbloom")), bit(hv), bit(h2), ("Lt", bucket, so)}
+            early_atoms = {zero(nb), ("Lt", nb[1], nb[2]), zero(F_(hdr, "nbloom")), bit(hv), bit(h2), ("Lt", bucket, so),
+                           ("Le", nchain, ("-", bucket, so))}          # the chain range (bucket - symoffset)..nchain is empty
 
             def early_ok(d, val, _atoms=early_atoms):
                 atom, pol = cond_holds(d, val)
                 if atom[0] == "Eq" and len(atom) == 3:
                     atom = ("Eq",) + tuple(sorted(atom[1:], key=repr))
                 return pol and atom in _atoms
-            early_exits(anc, rep, "linkage", "find" + kk, w, early_ok, "no buckets, no bloom words, a clear bloom bit, bucket value below symoffset")
+            def width_consts(t_):
+                # 8 * W::size_for(self.class) with W concrete (u32 / u64): the literal width again (as for the facts above)
+                mp_ = {x: T.const("usize", 4 if x.args[1][0] == "u32" else 8) for x in t_.subterms()
+                       if x.op == "call" and x.args[0] == "parse::ParseAt::size_for" and x.args[1] and x.args[1][0] in ("u32", "u64")
+                       and len(x.args[2]) == 1 and x.args[2][0] is cls_term}
+                return rebuild(t_, mp_) if mp_ else t_
+            early_exits(anc, rep, "linkage", "find" + kk, w, early_ok, "no buckets, no bloom words, a clear bloom bit, bucket value below symoffset, empty chain range",
+                        pre=width_consts)
         # returned index = chain index + symoffset
         from ..hashrules import some_outcomes
         for v, st in some_outcomes(an):
